@@ -512,11 +512,27 @@ def render_value(rng, lo, hi):
 
 
 def render_interp(rng, I):
+    """the interpretation as a user hands it over: in 45% of the cases in ONE form throughout (plain ints wherever the value
+    is a constant — what most callers write —, tuples only, Bounds only), otherwise each value in a form of its own"""
+    r = rng.random()
+    if r < 0.25:
+        return {k: (lo if lo == hi else (lo, hi)) for k, (lo, hi) in I.items()}
+    if r < 0.35:
+        return {k: (lo, hi) for k, (lo, hi) in I.items()}
+    if r < 0.45:
+        return {k: puan.Bounds(lo, hi) for k, (lo, hi) in I.items()}
     return {k: render_value(rng, lo, hi) for k, (lo, hi) in I.items()}
 
 
 def interp_json(I):
     return [[k, lo, hi] for k, (lo, hi) in sorted(I.items())]
+
+
+def pick_in(rng, lo, hi):
+    """a value of [lo, hi]; for wide ranges the two ends (and their neighbours) are over-represented"""
+    if hi - lo > 3 and rng.random() < 0.3:
+        return rng.choice([lo, hi, lo, hi, lo + 1, hi - 1])
+    return rng.randint(lo, hi)
 
 
 def gen_interp(rng, t, total=False, allow_compound=True, in_bounds=True, ranges=True):
@@ -528,7 +544,7 @@ def gen_interp(rng, t, total=False, allow_compound=True, in_bounds=True, ranges=
         if rng.random() < dens or total:
             if total or not ranges or rng.random() < 0.6:
                 # outside the declared bounds in 20% of the cases that allow it — in 60% for a leaf declared constant
-                c = rng.randint(lo, hi) if in_bounds or rng.random() < (0.4 if lo == hi else 0.8) else rng.choice([lo - 1, hi + 1])
+                c = pick_in(rng, lo, hi) if in_bounds or rng.random() < (0.4 if lo == hi else 0.8) else rng.choice([lo - 1, hi + 1])
                 I[n] = (c, c)
             else:
                 a = rng.randint(lo, hi)
